@@ -236,9 +236,12 @@ class PopenExecutor(concurrent.futures.Executor):
 
         # submitting new futures after join() would be bad,
         # so we make this internal and only call it from shutdown()
-        with contextlib.suppress(concurrent.futures.CancelledError):
-            for future in list(self._futures):
-                future.result()
+        with self._lock:
+            futures = list(self._futures)
+
+        # wait for every future, whatever its outcome: the failure of one job
+        # (timeout, spawn error) must not end the wait for the others
+        concurrent.futures.wait(futures)
 
 
 def main():
